@@ -198,7 +198,7 @@ def c28RefVerdicts (pre : Server) (ws : List String) (core : String) : List Stri
         let subQ := match sub with | some s => s.qos | none => 0
         let applicable := c.isOpen && !c.inline && q == 1 && entitled && !payload.isEmpty && specTopicOK topic && !topic.isEmpty &&
           aclOk pre c.id topic true && aclOk pre c.id topic false && c.recvQuota > 0 && (assocGet pre.pubHook topic).isNone &&
-          pre.caps.maximumQos ≥ 1 && (kvGet kv "d").isNone && (flGet c id).isNone &&
+          pre.caps.maximumQos ≥ 1 && (kvGet kv "d").isNone && (kvGet kv "ta").isNone && (flGet c id).isNone &&
           -- a No Local subscription of the same client that also matches suppresses the echo (the merge of
           -- overlapping subscriptions ORs No Local: C03's recorded finding F03, not a C28 matter)
           !((matchingEntries pre topic).any fun (cid, sb, _) => cid == c.id && sb.noLocal)
